@@ -78,6 +78,8 @@ def tasks(tier, seed):
                 out.append({"fn": "accumulate", "kwargs": {"k": k, "weights": w, "which": f}, "label": f"accumulate/k={k},weights={w},{f}"})
                 if w == "vector" or (tier == "thorough"):
                     out.append({"fn": "accumulate", "kwargs": {"k": k, "weights": w, "which": f, "full": True}, "label": f"accumulate/k={k},weights={w},{f},full"})
+    for isl, ind in ((1, 2), (2, 3)) if tier == "quick" else ((1, 2), (2, 3), (3, 3), (2, 5)):
+        out.append({"fn": "champions", "kwargs": {"islands": isl, "individuals": ind}, "label": f"champions/islands={isl},individuals={ind}"})
     return out
 
 
@@ -337,6 +339,112 @@ def accumulate(k, weights, which, full=False):
     vx.prove(f"C11/accumulate/champion_resimulation/{lab}", vx.all_of(same))
 
 
+class _Pop:
+    def __init__(self, f, x):
+        self.f, self.x = f, x
+
+    def best_idx(self):
+        best = 0
+        for j in range(1, len(self.f)):
+            if bool(self.f[j] < self.f[best]):  # forks on symbolic fitness values, like an argmin would
+                best = j
+        return best
+
+    def get_f(self):
+        return [[v] for v in self.f]
+
+    def get_x(self):
+        return [list(r) for r in self.x]
+
+    def champion_f(self):
+        return [self.f[self.best_idx()]]
+
+    def champion_x(self):
+        return list(self.x[self.best_idx()])
+
+
+class _Island:
+    def __init__(self, pop):
+        self.pop = pop
+
+    def get_population(self):
+        return self.pop
+
+
+class _Archi:
+    """pygmo.archipelago reduced to what the reporting code reads: per island the best-ever champion and the current population."""
+
+    def __init__(self, champ_f, champ_x, pops):
+        self.cf, self.cx, self.islands = champ_f, champ_x, [_Island(p) for p in pops]
+
+    def get_champions_f(self):
+        return [[v] for v in self.cf]
+
+    def get_champions_x(self):
+        return [list(r) for r in self.cx]
+
+    def __iter__(self):
+        return iter(self.islands)
+
+    def __len__(self):
+        return len(self.islands)
+
+    def __getitem__(self, i):
+        return self.islands[i]
+
+
+class _FakeDataset(dict):
+    pass
+
+
+def _report_champions(archi, symbolic):
+    ad = importlib.import_module("pyxel.calibration.archipelago_datatree")
+    obj = ad.ArchipelagoDataTree.__new__(ad.ArchipelagoDataTree)
+    obj._pygmo_archi = archi
+    obj.problem = type("P", (), {"convert_to_parameters": staticmethod(lambda x: x)})()
+    if not symbolic:
+        ds = obj._get_champions()
+        return np.asarray(ds["champion_fitness"]).ravel().tolist(), np.asarray(ds["champion_decision"]).tolist()
+    import types
+
+    shim = types.ModuleType("vx_fake_xarray_champions")
+    shim.Dataset = _FakeDataset
+    shim.DataArray = fakexr.DataArray
+    with Patch() as p:
+        p.numpy("pyxel.calibration.archipelago_datatree")
+        p.attr(ad, "xr", shim, "recording stand-in for xarray")
+        ds = obj._get_champions()
+    return list(ds["champion_fitness"].data.elems()), [list(r) for r in np.array(ds["champion_decision"].data.elems(), dtype=object).reshape(ds["champion_decision"].data.shape).tolist()]
+
+
+def champions(islands, individuals):
+    """What calibration reports as champions after an evolution is pygmo's best-ever champion of each island (fitness and decision
+    vector of the same individual); since pygmo's champion never gets worse, neither does the reported one.  The current population
+    of an island is arbitrary, except that none of its members beats the island's best-ever champion."""
+    snaps = []
+    for e in range(2):  # two successive evolutions
+        cf = [vx.real(f"e{e}_champ_f_{i}") for i in range(islands)]
+        cx = [[vx.real(f"e{e}_champ_x_{i}_{k}") for k in range(2)] for i in range(islands)]
+        pops = []
+        for i in range(islands):
+            f = [vx.real(f"e{e}_pop_f_{i}_{j}") for j in range(individuals)]
+            x = [[vx.real(f"e{e}_pop_x_{i}_{j}_{k}") for k in range(2)] for j in range(individuals)]
+            for v in f:
+                vx.assume(cf[i] <= v, "pygmo: an island's champion is the best individual it has ever held")
+            pops.append(_Pop(f, x))
+        if e == 1:
+            for i in range(islands):
+                vx.assume(cf[i] <= snaps[0][0][i], "pygmo: the best-ever champion of an island never gets worse")
+        snaps.append((cf, cx, _Archi(cf, cx, pops)))
+    lab = f"islands={islands},individuals={individuals}"
+    reported = []
+    for e, (cf, cx, archi) in enumerate(snaps):
+        rf, rx = _report_champions(archi, True)
+        reported.append(rf)
+        vx.prove(f"C11/champion/reported_is_best_ever/{lab}", vx.all_of([len(rf) == islands] + [a == b for a, b in zip(rf, cf)] + [u == v for ra, ca in zip(rx, cx) for u, v in zip(ra, ca)]), evolution=e)
+    vx.prove(f"C11/champion/never_worse_than_before/{lab}", vx.all_of([b <= a for a, b in zip(reported[0], reported[1])]))
+
+
 # ------------------------------------------------------------------------------------------------
 def replay(oid, kwargs, model, data):
     fn = data["fn"]
@@ -380,6 +488,19 @@ def replay(oid, kwargs, model, data):
         else:
             got, want = fm.reduced_chi_squared(s, t, w, 1), (((t - s) / w) ** 2).sum() / (n - 1)
         return (not close(float(got), float(want), 1e-9)), {"got": float(got), "want": float(want)}
+    if fn == "champions":
+        islands, individuals = kwargs["islands"], kwargs["individuals"]
+        g = lambda n, dflt: float(model.get(n, dflt))  # noqa: E731
+        out = []
+        for e in range(2):
+            cf = [g(f"e{e}_champ_f_{i}", 1.0) for i in range(islands)]
+            cx = [[g(f"e{e}_champ_x_{i}_{k}", 0.0) for k in range(2)] for i in range(islands)]
+            pops = [_Pop([g(f"e{e}_pop_f_{i}_{j}", 2.0 + j) for j in range(individuals)], [[g(f"e{e}_pop_x_{i}_{j}_{k}", 1.0) for k in range(2)] for j in range(individuals)]) for i in range(islands)]
+            rf, rx = _report_champions(_Archi(cf, cx, pops), False)
+            out.append({"pygmo_champion_fitness": cf, "reported_champion_fitness": rf, "pygmo_champion_decision": cx, "reported_champion_decision": rx})
+        bad = any(o["pygmo_champion_fitness"] != o["reported_champion_fitness"] or o["pygmo_champion_decision"] != o["reported_champion_decision"] for o in out)
+        bad = bad or any(b > a for a, b in zip(out[0]["reported_champion_fitness"], out[1]["reported_champion_fitness"]))
+        return bad, {"evolution_1": out[0], "evolution_2": out[1]}
     if fn == "accumulate":
         return _replay_accumulate(kwargs, model, champion="champion_resimulation" in oid)
     return False, {"note": "no concrete oracle"}
